@@ -13,7 +13,7 @@ pub fn spec() -> PropSpec {
     PropSpec {
         id: "C17",
         level: "exploration",
-        rule: "every 24-bit address is enumerated once through the public constructor Plane::from_downlink and compared with an independently transcribed Annex 10 block table (non-trivial = the reference fully determines the code: inside a block or outside every block; distinct by enumeration); additionally generated addresses (block edges +-1, random) go through the whole reader pipeline as DF11, DF17 and DF4 frames (non-trivial = row exists and reference determined; distinct by (address, format)); and short histories (first frame of any of the nine formats, silence shorter / longer than delete_after, 0..25 frames of another aircraft so that the row is live, expired-but-unswept, or swept and re-created, second frame of any format, -U on/off): the code shown at the end must again be the block's",
+        rule: "every 24-bit address is enumerated once through the public constructor Plane::from_downlink and compared with an independently transcribed Annex 10 block table (non-trivial = the reference fully determines the code: inside a block or outside every block; distinct by enumeration); additionally generated addresses (block edges +-1, random) go through the whole reader pipeline as DF11, DF17 and DF4 frames (non-trivial = row exists and reference determined; distinct by (address, format)); and short histories (first frame of any of the nine formats, silence shorter / longer than delete_after, 0..25 frames of another aircraft so that the row is live, expired-but-unswept, or swept and re-created, second frame of any format, -U on/off): the code shown at the end must again be the block's; and the code as printed by the program's own table output (second field of the row) for the ends and the middle of every block and the addresses just outside",
         assumptions: &[
             "reference table transcribed from memory of Annex 10 Vol III table 9-1; where it disagrees with the code and cannot be checked offline (Malta 4D2400-4D2FFF, Montenegro 516000-5163FF) either answer is accepted and the addresses are counted as excluded",
             "country codes are the ISO 3166 alpha-2 codes of the State names (YU for the block still labelled Yugoslavia), ICAO1/ICAO2 for the two ICAO blocks",
@@ -153,6 +153,50 @@ fn run(c: &mut Ctx) {
         c.eval(n);
         c.class_n("one_bit_neighbour_lookups", n);
     }
+    // the code as it is *shown*: rows printed by the program itself (Planes::print) for both ends and the middle of every
+    // block, the addresses just outside, and the uncertain ranges; second field of the printed row
+    if c.worker == 1 % c.nworkers {
+        let mut addrs: Vec<u32> = icao_table::BLOCKS
+            .iter()
+            .chain(icao_table::UNCERTAIN.iter())
+            .flat_map(|b| [b.0.wrapping_sub(1) & 0xFF_FFFF, b.0, (b.0 + b.1) / 2, b.1, (b.1 + 1) & 0xFF_FFFF])
+            .filter(|a| *a != 0)
+            .collect();
+        addrs.sort();
+        addrs.dedup();
+        for u in [false, true] {
+            let opts = Opts { u, i: vec!["aAews".into()], ..Opts::quiet() };
+            let quiet = Opts { u, ..Opts::quiet() };
+            let t = run::new_table();
+            let lines: Vec<String> = addrs.iter().map(|a| frame_of(*a, if a % 3 == 0 { 17 } else { 11 }).hex()).collect();
+            if let Err(e) = run::run_lines(&quiet, &t, &lines) {
+                c.fail(format!("reader failed: {:?}", e), "c17:printed", json!({"kind":"printed","u":u}));
+                return;
+            }
+            let printed = crate::render::print_table(&t, &opts);
+            let mut seen = 0u64;
+            for l in &printed {
+                let mut it = l.split_whitespace();
+                let (Some(a), Some(code)) = (it.next(), it.next()) else { continue };
+                let Ok(addr) = u32::from_str_radix(a, 16) else { continue };
+                seen += 1;
+                match judge(addr, code) {
+                    Ok(true) => c.nontrivial(&("printed", addr, u)),
+                    Ok(false) => c.excluded("reference-uncertain address (either answer accepted)"),
+                    Err(m) => {
+                        if !c.failed() {
+                            c.fail(format!("{} [as printed in the table row {:?}]", m, l.chars().take(24).collect::<String>()), "c17:printed", json!({"kind":"printed","addr":addr,"u":u}));
+                        }
+                    }
+                }
+            }
+            c.eval(seen);
+            c.class_n("printed_rows", seen);
+            if seen != addrs.len() as u64 && !c.failed() {
+                c.fail(format!("{} aircraft were heard but {} rows with an address and a code were printed", addrs.len(), seen), "c17:printed", json!({"kind":"printed","u":u}));
+            }
+        }
+    }
     // generated: block edges and random addresses through the reader, three formats
     let edges: Vec<u32> = icao_table::BLOCKS
         .iter()
@@ -220,6 +264,31 @@ fn replay(c: &mut Ctx, case: &Value) {
     let addr = case.get("addr").and_then(|v| v.as_u64()).unwrap_or(0) as u32;
     let via = case.get("via").and_then(|v| v.as_str()).unwrap_or("ctor");
     c.eval(1);
+    if case.get("kind").and_then(|k| k.as_str()) == Some("printed") {
+        let u = case["u"].as_bool().unwrap_or(false);
+        let t = run::new_table();
+        let addrs: Vec<u32> = if addr != 0 { vec![addr] } else { icao_table::BLOCKS.iter().map(|b| b.0).filter(|a| *a != 0).collect() };
+        let lines: Vec<String> = addrs.iter().map(|a| frame_of(*a, 11).hex()).collect();
+        let _ = run::run_lines(&Opts { u, ..Opts::quiet() }, &t, &lines);
+        let printed = crate::render::print_table(&t, &Opts { u, i: vec!["aAews".into()], ..Opts::quiet() });
+        let mut seen = 0;
+        for l in &printed {
+            let mut it = l.split_whitespace();
+            if let (Some(a), Some(code)) = (it.next(), it.next()) {
+                if let Ok(a) = u32::from_str_radix(a, 16) {
+                    seen += 1;
+                    if let Err(m) = judge(a, code) {
+                        c.fail(format!("{} [as printed]", m), "c17:printed", case.clone());
+                        return;
+                    }
+                }
+            }
+        }
+        if seen != addrs.len() {
+            c.fail(format!("{} aircraft heard, {} rows printed", addrs.len(), seen), "c17:printed", case.clone());
+        }
+        return;
+    }
     if case.get("kind").and_then(|k| k.as_str()) == Some("history") {
         let g = |k: &str| case[k].as_i64().unwrap_or(0);
         match history_reg(addr, g("f1") as u32, g("f2") as u32, g("silence"), g("between") as usize, case["u"].as_bool().unwrap_or(false)) {
